@@ -157,9 +157,87 @@ func (t *Tap) onBroken(dir string) func(string) {
 	}
 }
 
+// tapFullDecode: frames up to this size are decoded with the generated ReadFrom; of larger ones
+// (large phase, big.go) only the members the oracle needs are read with the same codec reader,
+// which steps over sBuffer without copying it.
+const tapFullDecode = 32 << 10
+
+func readReqHead(body []byte, p *requestf.RequestPacket) error {
+	if len(body) <= tapFullDecode {
+		return p.ReadFrom(codec.NewReader(body))
+	}
+	r := codec.NewReader(body)
+	if err := r.ReadInt16(&p.IVersion, 1, true); err != nil {
+		return err
+	}
+	if err := r.ReadInt8(&p.CPacketType, 2, true); err != nil {
+		return err
+	}
+	if err := r.ReadInt32(&p.IMessageType, 3, true); err != nil {
+		return err
+	}
+	if err := r.ReadInt32(&p.IRequestId, 4, true); err != nil {
+		return err
+	}
+	if err := r.ReadString(&p.SServantName, 5, true); err != nil {
+		return err
+	}
+	if err := r.ReadString(&p.SFuncName, 6, true); err != nil {
+		return err
+	}
+	if err := r.ReadInt32(&p.ITimeout, 8, true); err != nil { // steps over sBuffer (7)
+		return err
+	}
+	if _, err := r.SkipTo(codec.MAP, 9, true); err != nil {
+		return err
+	}
+	var n int32
+	if err := r.ReadInt32(&n, 0, true); err != nil {
+		return err
+	}
+	if err := r.CheckLength(n); err != nil {
+		return err
+	}
+	p.Context = map[string]string{}
+	for i := int32(0); i < n; i++ {
+		var k, v string
+		if err := r.ReadString(&k, 0, true); err != nil {
+			return err
+		}
+		if err := r.ReadString(&v, 1, true); err != nil {
+			return err
+		}
+		p.Context[k] = v
+	}
+	return nil
+}
+
+func readRspHead(body []byte, p *requestf.ResponsePacket) error {
+	if len(body) <= tapFullDecode {
+		return p.ReadFrom(codec.NewReader(body))
+	}
+	r := codec.NewReader(body)
+	if err := r.ReadInt16(&p.IVersion, 1, true); err != nil {
+		return err
+	}
+	if err := r.ReadInt8(&p.CPacketType, 2, true); err != nil {
+		return err
+	}
+	if err := r.ReadInt32(&p.IRequestId, 3, true); err != nil {
+		return err
+	}
+	if err := r.ReadInt32(&p.IMessageType, 4, true); err != nil {
+		return err
+	}
+	if err := r.ReadInt32(&p.IRet, 5, true); err != nil {
+		return err
+	}
+	return r.ReadString(&p.SResultDesc, 8, false) // steps over sBuffer (6) and status (7)
+}
+
 func (t *Tap) onRequest(body []byte) {
 	var p requestf.RequestPacket
-	if err := p.ReadFrom(codec.NewReader(body)); err != nil {
+	if err := readReqHead(body, &p); err != nil {
 		t.onBroken("client→server")(fmt.Sprintf("request frame of %d bytes does not decode: %v", len(body), err))
 		return
 	}
@@ -175,7 +253,7 @@ func (t *Tap) onRequest(body []byte) {
 
 func (t *Tap) onResponse(body []byte) {
 	var p requestf.ResponsePacket
-	if err := p.ReadFrom(codec.NewReader(body)); err != nil {
+	if err := readRspHead(body, &p); err != nil {
 		t.onBroken("server→client")(fmt.Sprintf("response frame of %d bytes does not decode: %v", len(body), err))
 		return
 	}
